@@ -199,7 +199,38 @@ def discover_table(ctx: Ctx):
                             bad = True
             yield ctx.ob('C02.DISCOVER-TABLE', not bad, ftp, s, 'empty result only for scalars / revisited collections',
                          '' if not bad else f'`{src(s)}` returns no tasks for a container value when {show(c)}')
-    # get_direct_dependencies: all fields, all found tasks
+    # get_direct_dependencies: all fields, all found tasks - or a collection built from a complete enumeration of the
+    # dependency instances (`OrderedSet(get_direct_dependency_instances(task))`)
+    from .runners import _instance_complete
+    tparam = [a.arg for a in gdd.params][0] if gdd.params else 'task'
+    delegated = []
+    for c in calls_in(gdd.node):
+        if c.args and isinstance(c.args[0], ast.Name) and c.args[0].id == tparam:
+            for q in ctx.P.resolve_call(c, gdd, by_name=False):
+                f2 = ctx.P.funcs.get(q)
+                if f2 is not None and f2.qualname != gdd.qualname and _instance_complete(ctx, f2)[0]:
+                    delegated.append(c)
+    if delegated:
+        c0 = delegated[0]
+        rets = [r for r in walk_local(gdd.node) if isinstance(r, ast.Return) and r.value is not None]
+        # the enumeration flows, whole, into the returned collection
+        direct = len(rets) == 1 and isinstance(rets[0].value, ast.Call) and rets[0].value.args and rets[0].value.args[0] is c0 \
+            and (dotted(rets[0].value.func) or '').split('.')[-1] in ('OrderedSet', 'list', 'tuple')
+        loops_d = [lp for lp in walk_local(gdd.node) if isinstance(lp, ast.For) and lp.iter is c0 and isinstance(lp.target, ast.Name)]
+        looped = False
+        if loops_d and not early_exits(loops_d[0], allow_raise=True, allow_continue=False):
+            adds = [c for c in calls_in(loops_d[0]) if isinstance(c.func, ast.Attribute) and c.func.attr in ('add', 'append') and c.args
+                    and isinstance(c.args[0], ast.Name) and c.args[0].id == loops_d[0].target.id]
+            looped = bool(adds) and cond_in_loop(ctx, gdd, loops_d[0], adds[0]) == TRUE
+        okd = direct or looped
+        yield ctx.ob('C02.DISCOVER-TABLE', okd, gdd, c0, 'all fields(task) searched',
+                     '' if okd else 'get_direct_dependencies does not keep every task of the complete enumeration it delegates to')
+        yield ctx.ob('C02.DISCOVER-TABLE', okd, gdd, c0, 'every task found in every field is added',
+                     '' if okd else 'a task found in a field value may not be added to the dependency set')
+        md = memo_decorators(ftp) + memo_decorators(gdd)
+        yield ctx.ob('C02.DISCOVER-TABLE', not md, ftp, ftp.node, 'dependency search not memoised by equality',
+                     '' if not md else f'dependency search is memoised ({md}): equal-but-distinct values share a result', construct='memo')
+        return
     loops = [lp for lp in walk_local(gdd.node) if isinstance(lp, ast.For)]
     fl = [lp for lp in loops if isinstance(lp.iter, ast.Call) and dotted(lp.iter.func) == 'fields' and len(lp.iter.args) == 1
           and isinstance(lp.iter.args[0], ast.Name) and lp.iter.args[0].id == 'task']
